@@ -5,10 +5,10 @@ Require Import Verif.Total.Pipeline Verif.Total.FieldPanics Verif.Total.RunC01 V
 Local Open Scope Z_scope.
 
 (* For every import closure, every behaviour of the stages that run under a recover (generated parser,
-   both tree walks) and every error behaviour of the others, the CURRENT guard structure (Gen.Guards,
+   both tree walks, lint and post-processing) and every error behaviour of the others, the CURRENT guard structure (Gen.Guards,
    regenerated from the source) never lets a panic out. *)
 Theorem C01_never_crashes : forall fs post,
-  Forall unguarded_stages_dont_panic fs -> post <> RPanic -> compile guards fs post <> OCrash.
+  Forall unguarded_stages_dont_panic fs -> compile guards fs post <> OCrash.
 Proof. exact current_never_crashes. Qed.
 Print Assumptions C01_never_crashes.
 
@@ -35,7 +35,7 @@ Print Assumptions C01_field_class.
 
 (* generic form, for any guard structure *)
 Theorem C01_guarded_never_crashes : forall gs fs post,
-  all_guarded gs = true -> Forall unguarded_stages_dont_panic fs -> post <> RPanic -> compile gs fs post <> OCrash.
+  all_guarded gs = true -> Forall unguarded_stages_dont_panic fs -> compile gs fs post <> OCrash.
 Proof. exact compile_never_crashes. Qed.
 Print Assumptions C01_guarded_never_crashes.
 
